@@ -799,7 +799,7 @@ fn do_save(font: &Font, o: &Value, sandbox: &Path, src: &Path, x: &mut Exec) -> 
     let inplace = o["inplace"].as_bool().unwrap_or(false);
     let target = if inplace { src.to_path_buf() } else { sandbox.join("out.ufo") };
     std::fs::write(sandbox.join("canary.txt"), b"canary").unwrap();
-    if !inplace {
+    if !inplace && o["pre"].as_bool().unwrap_or(true) {
         // something that a save must replace, and must leave alone when it refuses
         std::fs::create_dir_all(target.join("data/old")).unwrap();
         std::fs::write(target.join("data/old/stale.bin"), b"stale").unwrap();
@@ -927,7 +927,16 @@ fn describe_wop(o: &Value) -> String {
                 .map(|(p, e)| (String::from_utf8_lossy(&join_names(p)).to_string(), format!("{:?}", e)))
                 .collect::<Vec<_>>()
         ),
-        _ => format!("font.save({})", if o["inplace"].as_bool().unwrap_or(false) { "in place" } else { "fresh target" }),
+        _ => format!(
+            "font.save({})",
+            if o["inplace"].as_bool().unwrap_or(false) {
+                "in place"
+            } else if o["pre"].as_bool().unwrap_or(true) {
+                "over an existing directory with stale content"
+            } else {
+                "to a path that does not exist yet"
+            }
+        ),
     }
 }
 
@@ -1127,7 +1136,7 @@ fn gen_case(rng: &mut Rng, long: bool) -> Value {
         ops.push(o);
     }
     if rng.chance(9, 10) {
-        ops.push(json!({"t": "save", "k": 0, "inplace": !empty_font && rng.chance(1, 4)}));
+        ops.push(json!({"t": "save", "k": 0, "inplace": !empty_font && rng.chance(1, 4), "pre": rng.chance(2, 3)}));
     }
     json!({"dd": dd, "di": di, "ops": ops})
 }
@@ -1220,7 +1229,7 @@ pub fn main(a: &Args) {
     let sa = run_exhaustive::<norad::datastore::Data>(false, dd, &a.out, &mut failures);
     let sb = run_exhaustive::<norad::datastore::Image>(true, di, &a.out, &mut failures);
     // Part B
-    let ncases = if a.thorough() { 120_000 } else { 6_000 };
+    let ncases = if a.thorough() { 60_000 } else { 6_000 };
     let mut rng = Rng::new(a.seed);
     let mut cases = String::new();
     let mut jl = String::new();
